@@ -14,7 +14,7 @@ Definition cell_eqb (a b : cell) : bool :=
 Definition err_eqb (a b : err) : bool :=
   match a, b with
   | ENotImpl, ENotImpl | ENotMono, ENotMono | EOutOfBounds, EOutOfBounds
-  | ECast, ECast | EIndex, EIndex | ETypeErr, ETypeErr => true
+  | EIndex, EIndex => true
   | _, _ => false end.
 Definition outcome_eqb (a b : outcome) : bool :=
   match a, b with
@@ -25,7 +25,7 @@ Definition outcome_eqb (a b : outcome) : bool :=
 Definition checkF (k : case_t) : bool := outcome_eqb (impl_val2idx (k_cfg k) (k_xs k)) (k_obs k).
 
 (* malformed input (bad option word, coordinate not strictly monotonic, fewer than 2 values):
-   outside the property's domain; the only demand is that it is rejected *)
+   outside the property's domain; a bad option word must be rejected, the rest is F only *)
 Definition malformed (c : cfg) : bool :=
   bad_opts c || negb (asc (c_cs c) || desc (c_cs c)) || negb (2 <=? lenZ (c_cs c))
   || negb (asc (dir_edges c) || desc (dir_edges c)).
@@ -35,13 +35,8 @@ Definition checkS (k : case_t) : bool :=
   else if malformed (k_cfg k) then true
   else spec_outcome (k_cfg k) (k_xs k) (k_obs k).
 
-Definition region (k : case_t) : nat :=
-  let c := k_cfg k in
-  if malformed c then 0%nat
-  else if region_desc c then 1%nat
-  else if region_alias c then 2%nat
-  else if region_top c (k_xs k) then 3%nat
-  else if region_scalar c (k_xs k) then 5%nat
-  else 0%nat.
+(* all exact-stream cases lie in the proved domain; the only known-defect region (binary64
+   rounding next to an edge) is assigned by the Python oracle on the float stream *)
+Definition region (k : case_t) : nat := 0%nat.
 
 Definition check (k : case_t) : verdict := (checkF k, checkS k, region k).
